@@ -24,6 +24,11 @@ CLAIMED = {
         text="Unbounded theorems: read_text(write_rows rs) = rs for all rows whose fields have no CR/LF and no unquoted leading space (both conditions shown necessary by machine-checked counter-examples = known finding F4); parse_hex(hex04 n) = n for every n; parse_row(csv_row g) = g for every GlyphMapping incl. the empty codepoint list. The csv model (a state machine) is tied to Python's csv module and to glyphmap.csv_line/load_from by evaluating it in Coq on random rows and arbitrary text. Config precedence and write/load symmetry are exercised for every FontConfig field x {neither,file,flag,both} with real absl flags; a table extracted from config.py's ast requires every field to be written, read, flagged and passed on. File-name recovery, glyph-name legality/distinctness (known finding F3), parts JSON and response files are checked on samples.",
         ref="DESIGN.md 8 C10",
     ),
+    "C11": dict(
+        technique="machine-checked proof in Coq (permutation/sortedness/pairing theorems for the generic coverage + parallel-array rule; completeness of the regenerated rule table against an OpenType schema by vm_compute) + correspondence by vm_compute + name-keyed semantic comparison of real fonts",
+        text="Unbounded theorems for every glyph type, record type and glyph-id function: _sort_by_gid returns a permutation sorted by glyph id (strictly, for distinct glyphs) whose parallel array stays paired with its glyphs (the (glyph, record) relation is unchanged); ReorderList sorts and permutes. A table theorem re-checked on every run: the live _REORDER_RULES covers every coverage field of every GSUB/GPOS/GDEF subtable type/format of a hand-written schema (cross-checked against fontTools' otData) with exactly its parallel array. The model is tied to the code by evaluating it in Coq on random inputs, and reorder_glyphs + save + reload is run on synthetic fonts containing all 25 schema entries, comparing schema-driven name-keyed canonical forms of GSUB/GPOS/GDEF, cmap, hmtx, glyf (incl. composites) and COLR v0/v1, and checking raw coverage order.",
+        ref="DESIGN.md 8 C11",
+    ),
     "C14": dict(
         technique="machine-checked proof in Coq (lra/lia theorems about ppem, bitmap metrics with Python's half-even round, int8 nudge, strike runs, offsets) + correspondence by vm_compute",
         text="Unbounded theorems over all integer metrics: ppem within 1/2 of upem*h/em; accepted metrics are representable; the bitmap's vertical centre is within 7/4 px (3/4 without the int8 nudge) of the scaled em-box centre and its edges follow with the explicit size mismatch; horizontal centring within 3/2 px for the repaired code and a machine-checked refutation for the original (finding F8, fixed); strikes are maximal runs of consecutive gids partitioning the sorted glyph list; offsets contiguous with 9+len records. Tied to bitmap_tables by evaluating the model in Coq on the same random metrics/images, and to make_cbdt_table/make_sbix_table by running them on fake fonts with real PNG bytes (image bytes, sizes, run structure).",
